@@ -75,6 +75,11 @@ func (ls2 *LeaseSet2) Verify() error {
 // Otherwise, the Destination's signing public key is returned.
 func (ls2 *LeaseSet2) signingPublicKeyForVerification() (types.SigningPublicKey, error) {
 	if ls2.HasOfflineKeys() && ls2.offlineSignature != nil {
+		// The transient key only speaks for the Destination if the Destination's
+		// own key signed it (expires || sigtype || transient_public_key).
+		if err := ls2.verifyOfflineSignature(); err != nil {
+			return nil, err
+		}
 		// Use transient signing public key from offline signature
 		transientKeyBytes := ls2.offlineSignature.TransientPublicKey()
 		transientSigType := ls2.offlineSignature.TransientSigType()
@@ -91,4 +96,22 @@ func (ls2 *LeaseSet2) signingPublicKeyForVerification() (types.SigningPublicKey,
 		return nil, oops.Errorf("failed to get signing public key from Destination: %w", err)
 	}
 	return spk, nil
+}
+
+// verifyOfflineSignature checks that the offline signature block was signed by the
+// Destination's signing key. Without this check anyone could attach a transient key
+// of their own to somebody else's Destination.
+func (ls2 *LeaseSet2) verifyOfflineSignature() error {
+	destKey, err := ls2.destination.SigningPublicKey()
+	if err != nil {
+		return oops.Errorf("failed to get signing public key from Destination: %w", err)
+	}
+	verifier, err := destKey.NewVerifier()
+	if err != nil {
+		return oops.Errorf("failed to create verifier for offline signature: %w", err)
+	}
+	if err := verifier.Verify(ls2.offlineSignature.SignedData(), ls2.offlineSignature.Signature()); err != nil {
+		return oops.Errorf("offline signature is not valid under the Destination's signing key: %w", err)
+	}
+	return nil
 }
